@@ -130,7 +130,8 @@ def project(raw_path, info):
     """raw driver events -> {sid: abstract events}; info[sid] collects facts for evidence."""
     per = {}
     for e in vlib.read_ndjson(raw_path) if os.path.exists(raw_path) else []:
-        per.setdefault(e.get("tr"), []).append(e)
+        if "sid" in e:              # the scenario whose goroutine logged the event (not the scenario current at that moment)
+            per.setdefault(e["sid"], []).append(e)
     out = {}
     for sid, evs in per.items():
         evs.sort(key=lambda e: e["seq"])
